@@ -1105,5 +1105,43 @@ pub fn run(rep: &mut Rep) {
         w.sim.writer.0.borrow_mut().plan = plans[(s % plans.len() as u64) as usize].clone();
         w
     }, &a);
-    let _ = (harvest, add_counters);
+    // ---- packets re-sent on a resumed session must be well-formed as well
+    let nres = if rep.quick() { 120 } else { 6000 };
+    rep.note(&format!("resumption: {nres} PRNG histories of QoS 1/2 publishes and acknowledgements, connection cut, session resumed (hook H1): every re-sent packet must pass the strict decoder"));
+    let ra = Alpha { kinds: vec![Kind::Pub1, Kind::Pub2], max_ops: 6, max_conc: 6, pub_ack_variants: vec![(0, 0), (2, 1)], ..Default::default() };
+    for k in 0..nres {
+        let id = format!("resume:{k}");
+        if !rep.take(90_000_000 + k, &id) {
+            continue;
+        }
+        let seed = rep.seed.wrapping_mul(7001).wrapping_add(k);
+        let mut rng = Rng::new(seed);
+        let mut w = World::boot(WorldCfg { seed, sei: Some(3600), ..Default::default() });
+        let mut steps = 0;
+        while steps < 3 + (k % 8) as usize {
+            let en = enabled(&w, &ra);
+            if en.is_empty() {
+                break;
+            }
+            apply(&mut w, en[rng.below(en.len())]);
+            w.settle_check();
+            steps += 1;
+        }
+        w.eof();
+        w.settle_check();
+        let (p, r) = w.unfinished();
+        w.resume(1, Some(3600), false);
+        for v in w.viols.iter_mut() {
+            if v.sig.starts_with("C17/resent-packet-malformed") || v.sig.starts_with("C17/resent-bytes-unsplittable") {
+                v.sig = v.sig.replace("C17/", "C01/");
+                v.props = &["C01"];
+            }
+        }
+        rep.add("evaluations", 1);
+        rep.add("resumed_sessions", 1);
+        rep.add("retransmitted_packets_decoded", (p.len() + r.len()) as i64);
+        rep.distinct(&("resume", w.shape()));
+        harvest(rep, &mut w, &id);
+        add_counters(rep, &w);
+    }
 }
